@@ -26,6 +26,7 @@ const jlEvery = 25
 var jlRouteCount int
 var jlRouteDir string
 var jlRouteDecoyDir string
+var jlRouteCfgDir string
 var runJlOnceCount int
 
 func jlBin() string { return os.Getenv("VERIF_JL") }
@@ -124,7 +125,35 @@ func jlRouteInit() {
 	}
 	jlRouteDir = jlScratch("route")
 	jlRouteDecoyDir = jlScratch("route-decoy")
+	// a third one holds a config.yaml that turns the logs up and colours them (the command reads it through its
+	// configuration library): logging options concern standard error only
+	jlRouteCfgDir = jlScratch("route-cfg")
+	os.WriteFile(filepath.Join(jlRouteCfgDir, "config.yaml"), []byte("verbosity: \"trace\"\ncolor: \"yes\"\n"), 0o644)
 	os.WriteFile(filepath.Join(jlRouteDecoyDir, "row.yml"), []byte("columns:\n  - name: \"zz-decoy\"\n    output: \"numeric\"\n  - name: \"a\"\n    output: \"hidden\"\n  - name: \"c\"\n    input: \"binary\"\n    output: \"string(int)\"\n"), 0o644)
+}
+
+// jlLogContext: the logging context of the n-th run of the route, in turn: none, flags, environment variables,
+// a config.yaml in the working directory. Whatever the context, what is written to standard output, what is
+// accepted and the exit status are the same (C19); line failures stay countable at every level but "none".
+func jlLogContext(cmd *exec.Cmd, n int) {
+	switch n % 9 {
+	case 1:
+		cmd.Args = append(cmd.Args, "--color", "yes")
+	case 2:
+		cmd.Env = append(cmd.Env, "JL_COLOR=yes")
+	case 3:
+		cmd.Args = append(cmd.Args, "-v", "5")
+	case 4:
+		cmd.Env = append(cmd.Env, "JL_VERBOSITY=trace")
+	case 5:
+		if cmd.Dir == jlRouteDir {
+			cmd.Dir = jlRouteCfgDir
+		}
+	case 6:
+		cmd.Args = append(cmd.Args, "--log-json", "--debug")
+	case 7:
+		cmd.Args = append(cmd.Args, "-v", "trace", "--color", "yes")
+	}
 }
 
 // runJlOnce feeds one line to the command and renders what it did like lineOutcome does.
@@ -139,6 +168,7 @@ func runJlOnce(args []string, line []byte) string {
 		cmd.Dir = jlRouteDecoyDir
 	}
 	cmd.Env = append(os.Environ(), "TZ=UTC", "HOME="+jlRouteDir)
+	jlLogContext(cmd, runJlOnceCount)
 	cmd.Stdin = bytes.NewReader(append(append([]byte{}, line...), '\n'))
 	var out, errb bytes.Buffer
 	cmd.Stdout, cmd.Stderr = &out, &errb
@@ -250,6 +280,7 @@ func emitStreamJl(cw *caseWriter, prop string, ti, to []colDesc, data []byte, un
 		cmd.Dir = jlRouteDecoyDir
 	}
 	cmd.Env = append(os.Environ(), "TZ=UTC", "HOME="+jlRouteDir)
+	jlLogContext(cmd, runJlOnceCount)
 	reader := "-"
 	if unreadable {
 		d, err := os.Open(jlRouteDir)
